@@ -89,7 +89,9 @@ SPEC = {
             "per call: unreadable records planted below core.Storage make loads fail part-way, the record is rewritten or "
             "deleted, the call is retried, repeated after success, close/stop in between; (e) gated schedule on a leveldb whose "
             "journal writes can be parked: DeleteRegion of a pending region parked inside its leveldb delete, Flush started, "
-            "delete released. Store sets also get 51-100+ explicitly saved weights inside one page (2 weight keys per store). Foreign keys are planted around both namespaces. "
+            "delete released; (f) leveldb write faults: Flush and the batch-filling SaveRegion of the region backend return an "
+            "error while every leveldb write fails (embedded DB swapped for a closed one), later flush/close/reopen/full load. "
+            "Store sets also get 51-100+ explicitly saved weights inside one page (2 weight keys per store). Foreign keys are planted around both namespaces. "
             "non-trivial = a non-empty successful full load plus a delete/flush/close/stop/weight/error pattern or >= 100 "
             "items; distinct = distinct op sequence",
     "model_text": "PdModel/Model/PadKey.lean (%020d keys, byte order), PdModel/Model/StorageLoad.lean (LoadRange, the loops of "
@@ -116,7 +118,7 @@ SPEC = {
                   "to 2500). Modelled rather than verified: strconv float formatting/parsing of the weights (bit patterns are "
                   "compared on the implementation side), protobuf encodings, the three kv backends' own range scans (compared, not "
                   "proved), the time-based background flush (thorough tier only), failures of Save/Remove/Load (only LoadRange "
-                  "failures and unreadable region records are injected); concurrency inside RegionStorage is covered by one gated "
+                  "failures, unreadable region records and failing leveldb writes of the region backend are injected); concurrency inside RegionStorage is covered by one gated "
                   "schedule (delete parked in leveldb vs flush) and the extracted lock/order facts, not by a model of interleavings. The region-backend theorems speak about the tree with fixes/F7b-*.diff applied; the "
                   "pre-repair behaviour is proved wrong on a witness (delete_then_flush_unfixed_counterexample) that is replayed "
                   "from corpus/C17 on every run.",
